@@ -2334,3 +2334,19 @@ METHODS[("SymList", "count")] = m_list_count
 METHODS[("SymList", "index")] = m_list_index
 METHODS[("list", "count")] = m_list_count
 METHODS[("list", "index")] = m_list_index
+
+
+def np_max(interp, st, args, kwargs, node):
+    """np.max(a) / np.min(a): the method on the array (python sequences are arrays first)"""
+    a = _as_array(args[0], node) if not isinstance(args[0], (Arr, Grid)) else args[0]
+    return m_max(interp, st, a, None, list(args[1:]), kwargs, node)
+
+
+def np_min(interp, st, args, kwargs, node):
+    a = _as_array(args[0], node) if not isinstance(args[0], (Arr, Grid)) else args[0]
+    if isinstance(a, Arr) and a.flat:
+        return _reduce_arr(a, _M().s_min, kwargs.get("axis"))
+    raise Outside("np.min of a symbolic-shape array", node)
+
+
+LIBFUNCS.update({"np.max": np_max, "np.amax": np_max, "np.min": np_min, "np.amin": np_min})
